@@ -151,6 +151,16 @@ func TestProp(t *testing.T) {
 	if prop == "" {
 		t.Skip("KAISIM_PROP not set")
 	}
+	if prop == "C11" {
+		seed := uint64(envInt("KAISIM_SEED", 1))
+		ws := newStats(prop, seed)
+		defer ws.write()
+		if os.Getenv("KAISIM_CENSUS") != "" {
+			ws.Census, ws.CensusEx = map[string]int{}, map[string]string{}
+		}
+		RunC11(t, ws, int(seed%1000), envInt("KAISIM_NWORKERS", 1), os.Getenv("KAISIM_TIER") == "thorough", loadKnown())
+		return
+	}
 	def, ok := Props[prop]
 	if !ok {
 		t.Fatalf("unknown property %s", prop)
@@ -275,11 +285,29 @@ func TestReplay(t *testing.T) {
 	b, err := os.ReadFile(path)
 	must(err)
 	var rf struct {
-		Property string  `json:"property"`
-		Class    string  `json:"class"`
-		Script   *Script `json:"script"`
+		Property string   `json:"property"`
+		Class    string   `json:"class"`
+		Script   *Script  `json:"script"`
+		C11      *C11Case `json:"c11_case"`
 	}
 	must(json.Unmarshal(b, &rf))
+	if rf.C11 != nil {
+		ws := newStats("C11", 0)
+		defer ws.write()
+		o := runC11Case(t, *rf.C11)
+		ws.Runs++
+		for _, c := range o.Calls {
+			fmt.Println("CALL", c)
+		}
+		for _, v := range o.Violation {
+			fmt.Printf("REPLAY-VIOLATION %s: %s\n", v.Class(), v.Detail)
+			if v.Class() == rf.Class && ws.Violation == nil {
+				vv := v
+				ws.Violation = &vv
+			}
+		}
+		return
+	}
 	def, ok := Props[rf.Property]
 	if !ok {
 		def = Props[rf.Script.Prop]
